@@ -645,9 +645,6 @@ Proof.
 Qed.
 
 (* unknown extensions of a serverHello: replaying the raw tail rebuilds slot 12 *)
-Lemma sset_sset i a b : forall st, sset i a (sset i b st) = sset i a st.
-Proof. revert i. induction st as [|x st IH]; intros; destruct i; simpl; try reflexivity. Abort.
-
 Lemma sset_sset i a b st : sset i a (sset i b st) = sset i a st.
 Proof.
   revert i. induction st as [|x st IH]; intros [|i]; simpl; try reflexivity. now rewrite IH.
